@@ -24,6 +24,8 @@
 
 #include <cstddef>
 #include <iosfwd>
+#include <istream>
+#include <limits>
 #include <vector>
 
 namespace hep
@@ -62,6 +64,9 @@ public:
 
         for (std::size_t i = 0; i != size; ++i)
         {
+            // consume the newline character that `serialize` writes in front of each distribution;
+            // the distribution starts with its name, which is an arbitrary line of text
+            in.ignore(std::numeric_limits<std::streamsize>::max(), '\n');
             distributions_.emplace_back(in);
         }
     }
